@@ -1078,13 +1078,13 @@ def check_contexts(rep, fl, rule="R06.1"):
     check_clear_affinity(rep, fl, rule)
 
 
-def check_clear_affinity(rep, fl, rule="R06.1"):
+def check_clear_affinity(rep, fl, rule="R06.1", callees=None):
     """policy.clear / store.clear must run in processor context (or under a handshake that parks
     the processor): otherwise an item handled between the two resets, or a handle_item that is
     between its own policy.add and store.try_insert, leaves store and policy disagreeing."""
     facts = fl.facts
     ctx, cg, roots = contexts(fl)
-    for callee in (fl.policy + "::clear", SM + "::clear"):
+    for callee in (callees or (fl.policy + "::clear", SM + "::clear")):
         for b, bi, t in call_sites_in_crate(facts, callee):
             cs = ctx.get(id(b), set())
             if not cs:
@@ -1094,8 +1094,9 @@ def check_clear_affinity(rep, fl, rule="R06.1"):
                 continue
             ok = cs <= {"processor"}
             rep.check(ok, rule, fl, r, "%s on client thread" % short(callee), "%s runs on the processor" % short(callee),
-                      "%s is executed by the calling (client) thread in %s, concurrently with the processor's handle_item: an item applied between policy.clear() and store.clear() "
-                      "(or a handle_item between its policy.add and store.try_insert) ends up charged-but-not-resident or resident-but-uncharged after clear()" % (short(callee), short(r)), loc=t["sp"])
+                      ("%s is executed by the calling (client) thread in %s, concurrently with the processor's handle_item: " % (short(callee), short(r))) +
+                      ("what the processor counts for an item it applies meanwhile is wiped although the entry stays charged" if callees else
+                       "an item applied between policy.clear() and store.clear() (or a handle_item between its policy.add and store.try_insert) ends up charged-but-not-resident or resident-but-uncharged after clear()"), loc=t["sp"])
 
 
 def check_handle_item_pairing(rep, fl, rule="R06.2", collisions=True, only_sites=None):
